@@ -1559,3 +1559,32 @@ V(id='c02-rational-rounding-keyword-benign', prop='C02', file='mpmath/ctx_mp_pyt
   old="            return ctx.make_mpf(from_rational(p, q, prec, rounding))",
   new="            return ctx.make_mpf(from_rational(p, q, prec, rnd=rounding))",
   expect='silent')
+
+# ---- C08 W-R5 / mpc_to_str (fixes 613bddc, b76c53d) ----
+V(id='c08-enclosure-both-floor', prop='C08', file='mpmath/libmp/libmpf.py',
+  old="            p2 = mpf_pow_int(ften, b, wp, round_ceiling)", new="            p2 = mpf_pow_int(ften, b, wp, round_floor)",
+  expect='fire:W-R5:to_digits_exp')
+V(id='c08-enclosure-mispaired', prop='C08', file='mpmath/libmp/libmpf.py',
+  old="_floor_digits(mpf_div(s, p2, wp, round_floor), dps, bitprec)", new="_floor_digits(mpf_div(s, p1, wp, round_floor), dps, bitprec)",
+  expect='fire:W-R5:to_digits_exp')
+V(id='c08-enclosure-unconditional-exit', prop='C08', file='mpmath/libmp/libmpf.py',
+  old="            if exponent2 == exponent and digits2[:dps] == digits[:dps]:\n                break",
+  new="            if exponent2 == exponent:\n                break",
+  expect='fire:W-R5:to_digits_exp')
+V(id='c08-probe-dropped', prop='C08', file='mpmath/libmp/libmpf.py',
+  old="        if len(digits2) == len(digits) and digits2[:dps] == digits[:dps]:\n            return digits, exponent",
+  new="        if len(digits2) == len(digits):\n            return digits, exponent",
+  expect='fire:W-R5:_floor_digits')
+V(id='c08-exactness-guard-loosened', prop='C08', file='mpmath/libmp/libmpf.py',
+  old="        if exp + fixprec >= 0 or not fixprec:", new="        if exp + fixprec >= -8 or not fixprec:",
+  expect='fire:W-R5:_floor_digits')
+V(id='c08-exactness-guard-benign', prop='C08', file='mpmath/libmp/libmpf.py',
+  old="        if exp + fixprec >= 0 or not fixprec:", new="        if fixprec == 0 or exp >= -fixprec:",
+  expect='silent')
+V(id='c08-nearest-scaling', prop='C08', file='mpmath/libmp/libmpf.py',
+  old="            digits2, exponent2 = _floor_digits(mpf_div(s, p1, wp, round_ceiling), dps, bitprec)",
+  new="            digits2, exponent2 = _floor_digits(mpf_div(s, p1, wp, round_nearest), dps, bitprec)",
+  expect='fire:W-R5:to_digits_exp')
+V(id='c08-mpc-real-part-options-dropped', prop='C08', file='mpmath/libmp/libmpc.py',
+  old="    rs = to_str(re, dps, **kwargs)", new="    rs = to_str(re, dps)",
+  expect='fire:W-R2:mpc_to_str')
